@@ -995,6 +995,67 @@ func checkC08(w *World, r *Report) {
 	}
 	r.floor("C08.iter", "evaluating calls before the dispatch", n, 3)
 	macroTailRule(w, r, "C08.lisp")
+	// closures stay closures: the loop continues only for MalFunc operators
+	r.rule("C08.no-trampoline", "no builtin creates, while a program runs, a Go function value (types.Func) whose body applies a lisp closure it captured: such a wrapper hides the closure from the evaluation loop, so every tail call through it nests Apply and EVAL on the host stack (a closure with metadata, a decorated closure must stay a MalFunc)")
+	{
+		extSig := w.ByPath[modPath+"/types"].Types.Scope().Lookup("ExternalCall").Type().Underlying().(*types.Signature)
+		ntr := 0
+		seenT := map[*ssa.Function]bool{}
+		for _, root := range w.registeredFuncs() {
+			if !strings.HasPrefix(fnPkgPath(root), modPath+"/lib/") {
+				continue
+			}
+			for _, f := range w.withPkgHelpers(root) {
+				for _, g := range append([]*ssa.Function{f}, allAnon(f)...) {
+					if seenT[g] {
+						continue
+					}
+					seenT[g] = true
+					for _, b := range g.Blocks {
+						for _, in := range b.Instrs {
+							mc, ok := in.(*ssa.MakeClosure)
+							if !ok {
+								continue
+							}
+							cl := mc.Fn.(*ssa.Function)
+							if !sameParamsResults(cl.Signature, extSig) {
+								continue
+							}
+							ntr++
+							wraps := false
+							for _, cb := range cl.Blocks {
+								for _, cin := range cb.Instrs {
+									c, ok := cin.(*ssa.Call)
+									if !ok || (c.Call.StaticCallee() != m.apply && c.Call.StaticCallee() != m.EVAL) || len(c.Call.Args) < 2 {
+										continue
+									}
+									// the function applied is one the closure captured
+									arg := c.Call.Args[1]
+									for depth := 0; depth < 4; depth++ {
+										switch y := arg.(type) {
+										case *ssa.MakeInterface:
+											arg = y.X
+										case *ssa.ChangeInterface:
+											arg = y.X
+										case *ssa.UnOp:
+											arg = y.X
+										case *ssa.Field:
+											arg = y.X
+										}
+									}
+									if _, isFree := arg.(*ssa.FreeVar); isFree {
+										wraps = true
+									}
+								}
+							}
+							r.check(!wraps, "C08.no-trampoline", g, "Go function value built around a captured closure", mc.Pos(), "does not apply a captured lisp function", "a builtin hands out a types.Func whose body applies the closure it captured: calls through it, tail calls included, go Fn -> Apply -> EVAL and add host frames per iteration")
+						}
+					}
+				}
+			}
+		}
+		r.add("C08.no-trampoline", nil, "function values created by builtins at run time", token.NoPos, "ok", fmt.Sprintf("%d examined", ntr))
+	}
 	// loop-carried state besides the form and the scope
 	r.rule("C08.loop-state", "the evaluation loop carries only the form and the scope from one iteration to the next: the context it runs under stays the one EVAL was given (a context derived from the previous iteration's context grows a chain that Done/Err/Value descend recursively, one host frame per iteration, and that is never released)")
 	{
@@ -1277,9 +1338,43 @@ func checkC12(w *World, r *Report) {
 				}
 			}
 		}
+		// nothing but the flag of the copy is written: no metadata, no shared map
+		for _, b := range fn.Blocks {
+			for _, in := range b.Instrs {
+				switch x := in.(type) {
+				case *ssa.MapUpdate:
+					r.bad("C12.flag", fn, "SetMacro writes into a map", x.Pos(), "marking a closure as a macro writes into a map the closure shares with its other copies (its metadata): the function the macro was made from changes with it")
+				case *ssa.Store:
+					if fa, ok := x.Addr.(*ssa.FieldAddr); ok && fieldName(fa.X.Type(), fa.Field) != "IsMacro" {
+						if _, name, ok := w.namedStruct(fa.X.Type()); ok && name == "MalFunc" {
+							r.bad("C12.flag", fn, "SetMacro writes field "+fieldName(fa.X.Type(), fa.Field), x.Pos(), "marking a closure as a macro changes more than the macro flag of the copy")
+						}
+					}
+				}
+			}
+		}
 		r.check(!isPtr && setsTrue && returnsCopy, "C12.flag", fn, "SetMacro", fn.Pos(), "value receiver: marks and returns a copy", "SetMacro does not mark a copy (pointer receiver, flag not set, or copy not returned): ordinary uses of the function value would become macros")
 	} else {
 		r.undecided("C12.flag", nil, "SetMacro", token.NoPos, "method no longer resolves")
+	}
+	// GetMacro answers with the flag and nothing else (ordinary functions are unaffected, whatever their metadata says)
+	if gm := w.Fn("types", "(MalFunc).GetMacro"); gm != nil {
+		for _, rt := range m.returns(gm) {
+			ret := rt[0].(*ssa.Return)
+			v := rt[1].(ssa.Value)
+			okFlag := false
+			switch x := v.(type) {
+			case *ssa.Field:
+				okFlag = fieldName(x.X.Type(), x.Field) == "IsMacro"
+			case *ssa.UnOp:
+				if fa, ok := x.X.(*ssa.FieldAddr); ok {
+					okFlag = fieldName(fa.X.Type(), fa.Field) == "IsMacro"
+				}
+			}
+			r.check(okFlag, "C12.flag", gm, "value returned by GetMacro", ret.Pos(), "the IsMacro flag of the receiver", "whether a function is a macro is decided by something other than its macro flag ("+describeVal(e, v, 0)+"): a function that was never passed to defmacro can be called as a macro")
+		}
+	} else {
+		r.undecided("C12.flag", nil, "GetMacro", token.NoPos, "method no longer resolves")
 	}
 	// macro test true only via GetMacro
 	okTest := true
@@ -1444,6 +1539,39 @@ func checkC12(w *World, r *Report) {
 
 func ruleQQ(m *evalModel, r *Report, e *Engine) {
 	w := m.w
+	// an operand is an operand whatever it is: the transform raises "requires an argument" on the length of the
+	// form alone - nil is a template element (and the value of a nil placeholder) like any other
+	{
+		seenQ := map[*ssa.Function]bool{}
+		nq := 0
+		for _, root := range []*ssa.Function{m.quasiquote, m.qqLoop} {
+			for _, f := range w.withPkgHelpers(root) {
+				if seenQ[f] || m.isCore(f) && f != m.quasiquote && f != m.qqLoop {
+					continue
+				}
+				seenQ[f] = true
+				for _, rt := range m.returns(f) {
+					ret := rt[0].(*ssa.Return)
+					ev, _ := rt[2].(ssa.Value)
+					if ev == nil || isNilConst(ev) {
+						continue
+					}
+					if _, isEx := ev.(*ssa.Extract); isEx {
+						continue // an error passed up from a nested transform
+					}
+					nq++
+					for _, a := range knownConds(ret.Block()) {
+						bo, ok := a.v.(*ssa.BinOp)
+						if !ok || (bo.Op != token.EQL && bo.Op != token.NEQ) || !isNilConst(bo.Y) || !isMalType(bo.X.Type()) {
+							continue
+						}
+						r.bad("C12.qq-dispatch", f, "error decided by the value of a template element", ret.Pos(), "the transform refuses a form because "+describeVal(e, bo.X, 0)+" is nil: (unquote nil), ~nil or a nil placeholder under ~ is an unquote of the value nil, and the template must be returned with nil in that place")
+					}
+				}
+			}
+		}
+		r.add("C12.qq-dispatch", m.quasiquote, "errors raised by the quasiquote transform", m.quasiquote.Pos(), "ok", fmt.Sprintf("%d error returns examined: none decided by the value of an element", nq))
+	}
 	// the element loop always hands back the list it built (cons / concat forms), never a piece of the template
 	for _, rt := range errorReturns(m.qqLoop) {
 		ret := rt[0].(*ssa.Return)
